@@ -302,6 +302,7 @@ class KTr:
                 kinds[p] = ARR if (p in stored or p in aliased) else TAB
             else:
                 kinds[p] = INT
+        kinds.update({p: k for p, k in getattr(self, "force_kinds", {}).items() if p in params})
         return params, kinds
 
     # ------------------------------------------------------------------ typing
@@ -1887,3 +1888,107 @@ def generate_algkern(fns, gen_dir, write_if_changed):
     out.append("end\nend Gen\n")
     write_if_changed(os.path.join(gen_dir, "AlgKern.lean"), "\n".join(out))
     return sig
+
+
+# ---------------------------------------------------------------------------------------------------------------------
+# spherical/multiplication.py: _multiplication_helper
+# ---------------------------------------------------------------------------------------------------------------------
+MUL_HEADER = """import SphericalVerif.Gen.Indexing
+import SphericalVerif.Model.FlatMem
+/-! GENERATED by vlib/py2lean_kern.py from spherical/multiplication.py (`_multiplication_helper`) -- do not edit.  Regenerated on
+    every check.
+
+    The five nested loops of the product of two mode-weight arrays, for ONE element of the broadcast leading axes (`a[..., i]` read
+    as `a[i]`).  `f`, `g` are read-only; `fg` is the output array; the two `Wigner3jCalculator` objects are the arrays
+    `s_calculator`, `m_calculator` (their workspaces): `w = calc.calculate(j2, j3, m2, m3)` is the external operation
+    `w3jcalc calc j2 j3 m2 m3` on the memory (a parameter: what it leaves in the calculator's array is the subject of C05), after
+    which `w[j]` reads that array — so two results held at once are two different arrays exactly when the text uses two calculators.
+    `math.pow(-1, k)` is the sign `(-1)**k`; `math.pi` is the parameter `math_pi`; `LM_index` is `Yindex`. -/
+set_option linter.unusedVariables false
+namespace Gen
+section
+open Scalar
+variable {α : Type} [Scalar α] {φ : Type} [FMem φ α]
+"""
+
+
+def generate_mulkern(fns, gen_dir, write_if_changed):
+    import copy as _copy
+    mpath = "spherical/multiplication.py"
+    mtree = ast.parse(open(os.path.join(REPO, mpath), encoding="utf-8").read())
+    fd = find_function(mtree, "_multiplication_helper")
+    pnames = [a.arg for a in fd.args.args]
+    if pnames != ["f", "ellmin_f", "ellmax_f", "s_f", "g", "ellmin_g", "ellmax_g", "s_g", "fg", "ellmin_fg", "ellmax_fg", "s_fg"]:
+        raise TranslationError(f"_multiplication_helper: signature {pnames}")
+    stmts = [s for s in fd.body if not (isinstance(s, ast.Expr) and isinstance(s.value, ast.Constant))]
+    calcs = []
+    while stmts and isinstance(stmts[0], ast.Assign) and isinstance(stmts[0].value, ast.Call) and ast.unparse(stmts[0].value.func) == "Wigner3jCalculator":
+        if ast.unparse(stmts[0].value) != "Wigner3jCalculator(ellmax_f, ellmax_g)" or not isinstance(stmts[0].targets[0], ast.Name):
+            raise TranslationError(f"_multiplication_helper: {ast.unparse(stmts[0])}")
+        calcs.append(stmts[0].targets[0].id)
+        stmts = stmts[1:]
+    if not calcs or len(set(calcs)) != len(calcs):
+        raise TranslationError("_multiplication_helper: calculators")
+    if not (isinstance(stmts[-1], ast.Return) and ast.unparse(stmts[-1]) == "return fg"):
+        raise TranslationError("_multiplication_helper: must return fg")
+    body = stmts[:-1]
+    alias = {}
+
+    class R(ast.NodeTransformer):
+        def visit_Assign(self, node):
+            v = node.value
+            if isinstance(v, ast.Call) and isinstance(v.func, ast.Attribute) and v.func.attr == "calculate" and isinstance(v.func.value, ast.Name):
+                c = v.func.value.id
+                t = node.targets[0]
+                if c not in calcs or not isinstance(t, ast.Name) or len(v.args) != 4 or v.keywords:
+                    raise TranslationError(f"_multiplication_helper: {ast.unparse(node)}")
+                if alias.get(t.id, c) != c:
+                    raise TranslationError(f"_multiplication_helper: {t.id} holds results of two calculators")
+                alias[t.id] = c
+                args = [self.visit(a) for a in v.args]
+                return ast.Expr(value=ast.Call(func=ast.Name(id="w3jcalc", ctx=ast.Load()), args=[ast.Name(id=c, ctx=ast.Load())] + args, keywords=[]))
+            return self.generic_visit(node)
+
+        def visit_Call(self, node):
+            node = self.generic_visit(node)
+            if ast.unparse(node.func) == "math.pow" and len(node.args) == 2 and ast.unparse(node.args[0]) == "-1":
+                return ast.BinOp(left=ast.UnaryOp(op=ast.USub(), operand=ast.Constant(value=1)), op=ast.Pow(), right=node.args[1])
+            return node
+
+        def visit_Attribute(self, node):
+            if ast.unparse(node) == "math.pi":
+                return ast.Name(id="math_pi", ctx=ast.Load())
+            return self.generic_visit(node)
+
+        def visit_Name(self, node):
+            return ast.Name(id="Yindex", ctx=node.ctx) if node.id == "LM_index" else node
+
+        def visit_Subscript(self, node):
+            node = self.generic_visit(node)
+            sl = node.slice
+            if isinstance(sl, ast.Tuple) and len(sl.elts) == 2 and isinstance(sl.elts[0], ast.Constant) and sl.elts[0].value is Ellipsis:
+                node = ast.Subscript(value=node.value, slice=sl.elts[1], ctx=node.ctx)
+            return node
+    body = [R().visit(_copy.deepcopy(s)) for s in body]
+
+    class A(ast.NodeTransformer):       # reads of a result are reads of its calculator's array
+        def visit_Name(self, node):
+            return ast.Name(id=alias[node.id], ctx=node.ctx) if node.id in alias else node
+    body = [ast.fix_missing_locations(A().visit(s)) for s in body]
+    # an alias must not be used before it is (re)assigned in a way the rewriting would hide: every alias is assigned exactly once in the text
+    fdk = ast.parse("def u_multiplication_helper(" + ", ".join(pnames + calcs + ["math_pi"]) + "):\n    pass\n").body[0]
+    fdk.body = body
+    ast.fix_missing_locations(fdk)
+    kt = KTr(fns, {}, set(), fdk, complex_arrays={"f", "g", "fg"})
+    kt.kernels["w3jcalc"] = Kernel("w3jcalc", ["calc", "j2", "j3", "m2", "m3"], {"calc": ARR, "j2": INT, "j3": INT, "m2": INT, "m3": INT})
+    kt.force_kinds = {c: ARR for c in calcs}
+    kt.force_kinds["math_pi"] = FLT
+    k, txt = kt.translate(lean_name="u_multiplication_helper")
+    if "w3jcalc (α := α)" not in txt:
+        raise TranslationError("_multiplication_helper: no calculate call found")
+    txt = txt.replace("w3jcalc (α := α)", "w3jcalc")
+    txt = txt.replace(" (st : φ) : φ :=", " (w3jcalc : Nat → Int → Int → Int → Int → φ → φ) (st : φ) : φ :=", 1)
+    src = "\n".join("      " + l for s in stmts[:-1] for l in nfkc(ast.unparse(s)).splitlines())
+    out = [MUL_HEADER, f"/-- `_multiplication_helper` (after the construction of the calculators {', '.join(calcs)}):\n\n{src} -/\n" + txt, "end\nend Gen\n"]
+    write_if_changed(os.path.join(gen_dir, "MulKern.lean"), "\n".join(out))
+    return {k.name: [(p, k.kinds[p]) for p in k.params] + [("w3jcalc", "ext")]}
